@@ -178,7 +178,28 @@ class HoistArgs(ast.NodeTransformer):
                 setattr(n, fld, out)
         return n
 
-T = {"hoist_args": [HoistArgs], "swap_independent": [SwapIndependent], "add_pass": [AddPass], "rename_locals": [RenameLocals], "add_logging": [AddLogging], "commute_mult": [CommuteMult], "invert_if": [InvertIf], "expand_aug": [ExpandAug], "flip_compare": [FlipCompare], "all": [CommuteMult, InvertIf, ExpandAug, FlipCompare]}
+
+class IfExpToIf(ast.NodeTransformer):
+    """`x = a if c else b` -> `if c: x = a  else: x = b` (statement level, simple Name target)."""
+    def generic_visit(self, n):
+        super().generic_visit(n)
+        if isinstance(n, (ast.ClassDef, ast.Module)):
+            return n
+        for fld in ("body", "orelse", "finalbody"):
+            b = getattr(n, fld, None)
+            if isinstance(b, list) and b and isinstance(b[0], ast.stmt):
+                out = []
+                for s in b:
+                    if isinstance(s, ast.Assign) and len(s.targets) == 1 and isinstance(s.targets[0], ast.Name) and isinstance(s.value, ast.IfExp):
+                        t = s.targets[0].id
+                        mk = lambda v: ast.copy_location(ast.Assign(targets=[ast.Name(id=t, ctx=ast.Store())], value=v), s)
+                        out.append(ast.copy_location(ast.If(test=s.value.test, body=[mk(s.value.body)], orelse=[mk(s.value.orelse)]), s))
+                    else:
+                        out.append(s)
+                setattr(n, fld, out)
+        return n
+
+T = {"ifexp_to_if": [IfExpToIf], "hoist_args": [HoistArgs], "swap_independent": [SwapIndependent], "add_pass": [AddPass], "rename_locals": [RenameLocals], "add_logging": [AddLogging], "commute_mult": [CommuteMult], "invert_if": [InvertIf], "expand_aug": [ExpandAug], "flip_compare": [FlipCompare], "all": [CommuteMult, InvertIf, ExpandAug, FlipCompare]}
 
 
 TRANSFORMS = sorted(T)
